@@ -813,13 +813,20 @@ func runC03(c c03Case) (out lib.Outcome) {
 		patience = 30 * time.Second // at most five tiny requests: milliseconds of work
 	}
 	rep := sandbox.Exec("c03", payload, patience)
+	if rep.TimedOut {
+		// slow or silent? (see lib.Sandbox.ExecPatient)
+		var re bool
+		if rep, re = sandbox.ExecPatient("c03", payload, patience); re {
+			out.Label("slow-alloc-reclassified")
+		}
+	}
 	if rep.Died || rep.TimedOut {
 		switch {
 		case rep.OOM:
 			out.Label("oom")
 			out.Violate("C03/oom-declared-length", "server process died with out-of-memory (%s %s, tags %v)\n%s", c.Transport, c.Path, c.Tags, lib.Short(rep.Stderr, 1000))
 		case rep.TimedOut:
-			out.Violate(lib.Keyf("C03", "no-answer", c.Transport), "no answer within %v (%s %s, tags %v)", patience, c.Transport, c.Path, c.Tags)
+			out.Violate(lib.Keyf("C03", "no-answer", c.Transport), "no answer within %v and again within three times that (%s %s, tags %v)", patience, c.Transport, c.Path, c.Tags)
 		default:
 			cause := "process died"
 			if strings.Contains(rep.Stderr, "stack overflow") {
